@@ -176,7 +176,7 @@ def main(argv=None):
     kf_lines = ["KNOWN-FINDING: property=%s %s: %s" % (cid, kf, k["what"]) for kf, k in sorted(seen.items())]
     counters["known_finding_hits"] = {kf: sum(1 for k in known if k["kf"] == kf) for kf in seen}
 
-    rdir = os.path.join(VERIF, "replays")
+    rdir = os.environ.get("VERIF_REPLAY_DIR") or os.path.join(VERIF, "replays")
     vlines = []
     if violations:
         os.makedirs(rdir, exist_ok=True)
@@ -211,11 +211,12 @@ def main(argv=None):
             "coverage": cov, "assumptions": list(getattr(mod, "ASSUMPTIONS", ())),
             "wall_s": round(wall, 2), "violations": len(violations),
         }
-        os.makedirs(os.path.join(VERIF, "evidence"), exist_ok=True)
-        tmp = os.path.join(VERIF, "evidence", cid + ".json.tmp")
+        edir = os.environ.get("VERIF_EVIDENCE_DIR") or os.path.join(VERIF, "evidence")
+        os.makedirs(edir, exist_ok=True)
+        tmp = os.path.join(edir, cid + ".json.tmp")
         with open(tmp, "w") as fh:
             json.dump(ev, fh, indent=1, default=repr)
-        os.replace(tmp, os.path.join(VERIF, "evidence", cid + ".json"))
+        os.replace(tmp, os.path.join(edir, cid + ".json"))
 
     for line in kf_lines:
         print(line)
